@@ -26,6 +26,20 @@ func condOf(err error) (float64, bool) {
 	return 0, false
 }
 
+// errIffCond checks the documented link between the Condition error and Cond():
+// a solve reports a Condition error exactly when the stored condition number
+// exceeds ConditionTolerance (mat/errors.go: "If the condition number is above
+// this value, the matrix is considered singular").
+func errIffCond(what string, err error, cond float64) *vk.Failure {
+	if err == nil && cond > mat.ConditionTolerance {
+		return failf(what+"-missed-condition-error", "Cond()=%g exceeds ConditionTolerance but no error was returned", cond)
+	}
+	if err != nil && !(cond > mat.ConditionTolerance) {
+		return failf(what+"-error-without-condition", "error %v although Cond()=%g does not exceed ConditionTolerance", err, cond)
+	}
+	return nil
+}
+
 // sqGen describes a generated square matrix.
 type sqGen struct {
 	A        *M
@@ -370,6 +384,10 @@ func checkLU(c luCase) *vk.Failure {
 		func(dst *mat.Dense, bm mat.Matrix) error { return lu.SolveTo(dst, c.Trans, bm) },
 		func(dst *mat.VecDense, bv mat.Vector) error { return lu.SolveVecTo(dst, c.Trans, bv) })
 	vk.Class("lu/" + label)
+	if f := errIffCond("solve", err, cond); f != nil {
+		f.Msg += " (class " + c.Class + " " + label + ")"
+		return f
+	}
 	if g.singular {
 		cv, ok := condOf(err)
 		if !ok || !math.IsInf(cv, 1) {
